@@ -169,3 +169,70 @@ Proof.
   destruct (shift_spec_bits x b dir (Z.to_nat (to_Z sd))) as [Hl2 Hb2].
   apply bits_ext; [lia|]. intros i Hi. rewrite Hb by lia. rewrite Hb2 by lia. reflexivity.
 Qed.
+
+(* ---------- shift_* with a Python int amount ---------- *)
+Lemma pyslice_None_neg {A} (x : list A) k : 1 <= k ->
+  pyslice x None (Some (- Z.of_nat k)%Z) = firstn (length x - k) x.
+Proof.
+  intros Hk. unfold pyslice, slice_bounds, clamp_bound.
+  replace (- Z.of_nat k <? 0)%Z with true by lia. cbn [skipn Z.to_nat]. f_equal. lia.
+Qed.
+
+Lemma firstn_app_repeat {A} (a : A) k n (x : list A) : k <= n ->
+  firstn n (repeat a k ++ x) = repeat a k ++ firstn (n - k) x.
+Proof.
+  intros H. rewrite firstn_app, repeat_length. f_equal. rewrite firstn_all2; [reflexivity|]. rewrite repeat_length. lia.
+Qed.
+
+Lemma last_skipn {A} (x : list A) k d : k < length x -> last (skipn k x) d = last x d.
+Proof.
+  revert x. induction k as [|k IH]; intros x H; [reflexivity|].
+  destruct x as [|a x]; [cbn in H; lia|]. cbn [skipn]. cbn [length] in H.
+  rewrite IH by lia. destruct x; [cbn in H; lia|reflexivity].
+Qed.
+
+(* shift_left_logical(x, k): k int, 0 < k < len(x) (other k raise): zeros enter at the lsb *)
+Theorem sll_const_spec : forall x k r, 0 <= k -> sll_const x (Z.of_nat k) = Some r ->
+  0 < k < length x /\ r = shift_spec x false true k.
+Proof.
+  intros x k r _ H. unfold sll_const in H.
+  destruct (wslice x None (Some (- Z.of_nat k)%Z)) as [lo|] eqn:E; [|discriminate].
+  destruct (0 <? Z.of_nat k)%Z eqn:Ek; [|discriminate]. injection H as <-.
+  assert (Hk : 1 <= k) by lia. unfold wslice in E. rewrite pyslice_None_neg in E by exact Hk.
+  destruct (firstn (length x - k) x) as [|a l] eqn:Ef; [discriminate|]. injection E as <-.
+  assert (Hlt : k < length x).
+  { destruct (Nat.lt_ge_cases k (length x)); [assumption|].
+    replace (length x - k) with 0 in Ef by lia. discriminate. }
+  split; [lia|]. unfold shift_spec, concat2. rewrite Nat2Z.id. rewrite firstn_app_repeat by lia.
+  rewrite Ef. reflexivity.
+Qed.
+
+(* shift_right_logical(x, k), 0 <= k < len(x): zeros enter at the msb *)
+Theorem srl_const_spec : forall x k r, srl_const x (Z.of_nat k) = Some r ->
+  k < length x /\ r = shift_spec x false false k.
+Proof.
+  intros x k r H. unfold srl_const in H.
+  destruct (wslice x (Some (Z.of_nat k)) None) as [hi|] eqn:E; [|discriminate]. injection H as <-.
+  unfold wslice in E. rewrite pyslice_nat_None in E.
+  destruct (skipn (Nat.min k (length x)) x) as [|a l] eqn:Es; [discriminate|]. injection E as <-.
+  assert (Hlt : k < length x).
+  { destruct (Nat.lt_ge_cases k (length x)); [assumption|].
+    rewrite Nat.min_r in Es by lia. rewrite skipn_all in Es. discriminate. }
+  split; [exact Hlt|]. rewrite Nat.min_l in Es by lia. rewrite <- Es.
+  unfold shift_spec, zext. rewrite skipn_length. f_equal. f_equal. lia.
+Qed.
+
+(* shift_right_arithmetic(x, k), 0 <= k < len(x): the sign bit enters at the msb *)
+Theorem sra_const_spec : forall x k r, sra_const x (Z.of_nat k) = Some r ->
+  k < length x /\ r = shift_spec x (last x false) false k.
+Proof.
+  intros x k r H. unfold sra_const in H.
+  destruct (wslice x (Some (Z.of_nat k)) None) as [hi|] eqn:E; [|discriminate]. injection H as <-.
+  unfold wslice in E. rewrite pyslice_nat_None in E.
+  destruct (skipn (Nat.min k (length x)) x) as [|a l] eqn:Es; [discriminate|]. injection E as <-.
+  assert (Hlt : k < length x).
+  { destruct (Nat.lt_ge_cases k (length x)); [assumption|].
+    rewrite Nat.min_r in Es by lia. rewrite skipn_all in Es. discriminate. }
+  split; [exact Hlt|]. rewrite Nat.min_l in Es by lia. rewrite <- Es.
+  unfold shift_spec. rewrite last_skipn by exact Hlt. rewrite skipn_length. f_equal. f_equal. lia.
+Qed.
